@@ -7,6 +7,7 @@
 -/
 import GojaModel.Base.Proto
 import GojaModel.C18.Model
+import GojaModel.C18.SymIter
 
 namespace GojaModel.C18.Driver
 open GojaModel.C18
@@ -15,6 +16,9 @@ structure St where
   sys : Sys Nat Nat := {}
   ssys : SpecSys Nat Nat := {}
   slots : List (Option Nat) := [none, none, none, none]
+  /-- Object.assign-style snapshot iterators (kind `a`): `none` = slot is not of that kind, `some none` = created but
+  not started (the snapshot is taken when the copy starts), `some (some (mechanism keys, spec keys))`. -/
+  aslots : List (Option (Option (List Nat × List Nat))) := [none, none, none, none]
 
 def optNat (o : Option Nat) : String := match o with | some i => toString i | none => "-"
 
@@ -83,12 +87,29 @@ def runOp (setMode : Bool) (norm hash : Nat → Nat) (st : St) (tok : String) : 
   | 'z' => stepBoth norm hash st .size
   | 'i' => match (rest.take 1).toString.toNat? with
     | some j =>
+      if (rest.drop 1).toString == "a" then
+        ({ st with aslots := st.aslots.set j (some none) }, "ok", "ok")
+      else
+      let st := { st with aslots := st.aslots.set j none }
       let idx := st.sys.iters.length
       let (st', a, b) := stepBoth norm hash st .newIter
       ({ st' with slots := st'.slots.set j (some idx) }, a, b)
     | none => err
   | 'n' => match rest.toNat? with
-    | some j => match st.slots[j]? with
+    | some j =>
+      match st.aslots[j]? with
+      | some (some a) =>
+        let (mk, sk) := match a with
+          | none => ((symIterNew st.sys.m).keys, Spec.ownKeys st.ssys.d)     -- object.go:1293 iterateSymbols
+          | some p => p
+        let (it', r) := symIterNext norm hash st.sys.m mk
+        let (sk', rs) := Spec.assignNext norm st.ssys.d sk
+        let sh : Option (Nat × Nat) → String := fun x => match x with
+          | some (k, v) => "K" ++ toString k ++ ":v" ++ toString v
+          | none => "done"
+        ({ st with aslots := st.aslots.set j (some (some (it'.keys, sk'))) }, sh r, sh rs)
+      | _ =>
+      match st.slots[j]? with
       | some (some idx) => stepBoth norm hash st (.next idx)
       | _ => (st, "err:noiter", "err:noiter")
     | none => err
